@@ -1253,6 +1253,6 @@ func init() {
 		Run:            c18Run,
 		Replay:         c18Replay,
 		QuickBudget:    150 * time.Second,
-		ThoroughBudget: 15 * time.Minute,
+		ThoroughBudget: 8 * time.Minute,
 	})
 }
